@@ -447,21 +447,27 @@ func c18Single(shard, nshards int) vh.Unit {
 											if u.Expired() {
 												return
 											}
-											r := c18Round{states: [4]string{s0, s1, s2, s3}, invalid: inv, strict: strict, target: target, kind: kf.k, full: kf.f, nHosts: nh, enodeForm: (idx / nshards) % 4}
-											node, sp, a := c18Setup(r)
-											if err := c18Start(a, sp, r); err != nil {
-												u.Violate("agent/start-failed", err.Error(), nil)
-												return
+											efs := []int{(idx / nshards) % 4}
+											if u.Thorough() {
+												efs = []int{0, 1, 2, 3}
 											}
-											u.R.Evaluations++
-											u.R.States++
-											u.R.Transitions++
-											u.R.Traces++
-											okRound := c18Run(u, r, node, true, a, sp)
-											a.Stop()
-											u.Observe(fmt.Sprintf("%v %v %d %d %v", strict, len(inv), target, len(node.calls), okRound))
-											if len(u.R.Samples) < 2 && strict && len(inv) > 0 {
-												u.Sample(r.String())
+											for _, ef := range efs {
+												r := c18Round{states: [4]string{s0, s1, s2, s3}, invalid: inv, strict: strict, target: target, kind: kf.k, full: kf.f, nHosts: nh, enodeForm: ef}
+												node, sp, a := c18Setup(r)
+												if err := c18Start(a, sp, r); err != nil {
+													u.Violate("agent/start-failed", err.Error(), nil)
+													return
+												}
+												u.R.Evaluations++
+												u.R.States++
+												u.R.Transitions++
+												u.R.Traces++
+												okRound := c18Run(u, r, node, true, a, sp)
+												a.Stop()
+												u.Observe(fmt.Sprintf("%v %v %d %d %v", strict, len(inv), target, len(node.calls), okRound))
+												if len(u.R.Samples) < 2 && strict && len(inv) > 0 {
+													u.Sample(r.String())
+												}
 											}
 										}
 									}
